@@ -63,6 +63,9 @@ func (obj Symbol) needPipes() bool {
 	case c == '.':
 		// A lone dot marks a dotted pair.
 		return len(obj) == 1
+	case c == 'n' || c == 'N':
+		// The reader takes nil in any case for the empty list.
+		return len(obj) == 3 && strings.EqualFold(string(obj), "nil")
 	}
 	return false
 }
